@@ -3,6 +3,14 @@
 import json
 
 CLAIMS = {
+ "C05": dict(cat="model_checking", design="6 C05",
+  text="Every byte string up to length 4 (quick) / 5 (thorough) over a 35-byte alphabet with one byte per lexer branch, every sequence of up to 3/4 tokens from a 56-token alphabet, every single (thorough: double) token mutation of 31 valid programs and deep nestings are parsed by the real parser; each must end with a tree xor an error naming the script with an offset inside the source and consistent line/column, and the exported lexer's items must tile the source. 1.7 million texts in the quick tier, enumerated completely.",
+  note="Texts longer than the bound are only reached through the token and mutation alphabets. Termination is observed through the worker progress slot.",
+  tech="bounded-exhaustive enumeration of input texts through the real lexer and parser with a contract oracle"),
+ "C07": dict(cat="model_checking", design="6 C07",
+  text="Every string body up to length 5 (quick) / 6 (thorough) over 16 symbols (quotes, backslash, newline, NUL, a multi-byte rune, all escape letters and digits) in each of the 5 quote styles, all integers at power-of-two and decimal-digit boundaries in decimal and hex with 8 sign prefixes, all float spellings with <=3 digits over the whole exponent range plus round-trip spellings of +-2^k and neighbours, malformed numbers and all letter-case variants of the keywords are parsed; the literal node must hold exactly the value a reference decoder (Go escape rules) assigns, or the text must be rejected iff malformed. 5.8 million literals in the quick tier.",
+  note="strconv.ParseFloat is trusted arithmetic. Unspecified cells (listed in the evidence assumptions) are skipped and counted.",
+  tech="bounded-exhaustive enumeration of literal spellings through the real parser vs reference decoder"),
  "C06": dict(cat="model_checking", design="6 C06",
   text="All operator pairs and triples in all shapes, all unary placements, all pairs of 47 primary-expression forms under every operator and every statement form are printed with the minimal parentheses of the documented table, with every choice of <=2 redundant parentheses and <=2 layout insertions (space, tab, newline, blank line, comment) at the grammar's admissible sites, and parsed by the real parser; the parsed tree, converted to the generator's own tree type, must equal the generated tree. 1.7 million texts in the quick tier, enumerated completely.",
   note="Reference precedence = documented table extended with unary and `in` as gram.y and the IDE grammar agree. Layout sites are exactly those the statement names.",
